@@ -29,6 +29,7 @@ func checkC03(c *Ctx) {
 	c.Rule("C03/R3", "the iteration-count fast path cannot overflow: for each word size the digit-count bound d of the unchecked path satisfies 10^d-1 <= MaxInt of that size; everything else goes to the checked parser")
 	c.Rule("C03/R4", "exponent range check: in the decimal-to-bits conversion every increase of the binary exponent is followed, before the bits are assembled, by the test against the format's exponent limit (otherwise out-of-range text yields a silent Inf/garbage instead of a range error)")
 
+	c.Rule("C03/R10", "a dropped mantissa digit counts as truncation only if it is not zero: in readFloat the truncation flag becomes true only where the digit is known to differ from '0' (or is a hexadecimal letter)")
 	c.Rule("C03/R9", "iteration counts are decimal: Atoi hands the text it does not parse itself to ParseInt with base 10 and bit size 0 (base 0 would read 0x10, 0b1, 0o7, a leading 0 as octal and underscores)")
 	c.Rule("C03/R8", "infinities and NaN: the port's recogniser accepts exactly strconv's spellings (optional sign on inf/infinity, none on nan), comparing the whole input with the literal, and maps each to the same value")
 	c.Rule("C03/R7", "mantissas longer than the 800-digit decimal buffer keep their magnitude: the counter of dropped integer digits in decimal.set grows exactly for an unstored digit before the decimal point, and every decimal point position taken from the stored digit count adds it (the one place where the port is deliberately more correct than strconv's slow path)")
@@ -44,6 +45,7 @@ func checkC03(c *Ctx) {
 	c03Dropped(c, p)
 	c03Special(c, p)
 	c03Decimal(c, p)
+	c03Trunc(c, p)
 	if c.Tier == "thorough" {
 		if c.override == nil {
 			c03Drift(c, p)
@@ -1330,4 +1332,88 @@ func c03SpecialTable(c *Ctx, p *Prog, fn *ssa.Function, want map[string]string) 
 	sort.Strings(missing)
 	c.Check(len(missing) == 0, R, "special:all-spellings", site, "every spelling strconv accepts is accepted", fmt.Sprintf("the spellings %v, which strconv accepts, are not recognised", missing))
 	return true
+}
+
+// c03Trunc (C03/R10): a mantissa digit that no longer fits marks the value as truncated only if it carries weight. In
+// readFloat every place where the truncation flag becomes true lies where the digit is known not to be '0' (c != '0'),
+// or in a branch for hexadecimal letters (never zero). Marking a dropped zero sends an exact tie — zero padding behind a
+// 53-bit mantissa plus the half bit — through "round up" instead of "round to even".
+func c03Trunc(c *Ctx, p *Prog) {
+	const R = "C03/R10"
+	fn := p.Fn("benchfmt/internal/bytesconv", "readFloat")
+	if fn == nil {
+		c.Undecided(R, "anchor:readFloat", "", "not found")
+		return
+	}
+	n := 0
+	for _, b := range fn.Blocks {
+		for _, in := range b.Instrs {
+			phi, ok := in.(*ssa.Phi)
+			if !ok || phi.Comment != "trunc" || !isBoolT(phi.Type()) {
+				continue
+			}
+			for i, e := range phi.Edges {
+				k, ok := e.(*ssa.Const)
+				if !ok || k.Value == nil || !constant.BoolVal(k.Value) {
+					continue
+				}
+				n++
+				pred := b.Preds[i]
+				nonZero := false
+				// the facts on the way, with `switch true { case a && b: }` unfolded: the case is `true == phi(false…, b)`
+				// and b is computed where a already held
+				facts := factsAt(pred)
+				for i := 0; i < len(facts) && i < 64; i++ {
+					f := facts[i]
+					bo, ok := f.Cond.(*ssa.BinOp)
+					if !ok || !f.True || bo.Op != token.EQL {
+						continue
+					}
+					var other ssa.Value
+					if kb, isB := bo.X.(*ssa.Const); isB && kb.Value != nil && kb.Value.Kind() == constant.Bool && constant.BoolVal(kb.Value) {
+						other = bo.Y
+					} else if kb, isB := bo.Y.(*ssa.Const); isB && kb.Value != nil && kb.Value.Kind() == constant.Bool && constant.BoolVal(kb.Value) {
+						other = bo.X
+					}
+					switch x := other.(type) {
+					case *ssa.BinOp:
+						facts = append(facts, fact{Cond: x, True: true, If: f.If})
+					case *ssa.Phi:
+						var live []ssa.Value
+						for _, e := range x.Edges {
+							if k, isK := e.(*ssa.Const); isK && k.Value != nil && k.Value.Kind() == constant.Bool && !constant.BoolVal(k.Value) {
+								continue
+							}
+							live = append(live, e)
+						}
+						if len(live) == 1 {
+							facts = append(facts, fact{Cond: live[0], True: true, If: f.If})
+							if in, isIn := live[0].(ssa.Instruction); isIn {
+								facts = append(facts, factsAt(in.Block())...)
+							}
+						}
+					}
+				}
+				for _, f := range facts {
+					bo, ok := f.Cond.(*ssa.BinOp)
+					if !ok {
+						continue
+					}
+					kk, isK := constInt(bo.Y)
+					switch {
+					case isK && kk == '0' && ((bo.Op == token.NEQ && f.True) || (bo.Op == token.EQL && !f.True)):
+						nonZero = true // c != '0'
+					case isK && kk == 'f' && bo.Op == token.LEQ && f.True:
+						nonZero = true // lower(c) <= 'f' in the hexadecimal-letter branch
+					}
+					if kx, isKx := constInt(bo.X); isKx && kx == 'a' && bo.Op == token.LEQ && f.True {
+						nonZero = true // 'a' <= lower(c)
+					}
+				}
+				c.Check(nonZero, R, fmt.Sprintf("readFloat:trunc-set#%d", n), p.pos(phi.Pos()), "the truncation flag is set for a dropped digit known to be non-zero",
+					"the truncation flag is set for a dropped mantissa digit without that digit being known non-zero: trailing zeros behind a full mantissa then count as lost precision, and a hexadecimal float that is an exact tie (0x1.00000000000008000p0) is rounded up instead of to even — one ulp away from what the standard parser returns")
+			}
+		}
+	}
+	c.Floor(R, "places where readFloat marks the mantissa as truncated", n, 2)
 }
